@@ -116,8 +116,8 @@ pub const EMBED_CONTEXTS: [(&str, &str, &str); 8] = [
     ("string literal", "let a = \"", "\";\nlet b = a;"),
     ("block comment", "let a = num; /*", "*/ let b = a;"),
     ("line comment", "let a = num; //", "\nlet b = a;"),
-    ("line annotation", "#", "\nlet a = num;"),
-    ("inline annotation", "let a = num `", "`;\nlet b = a;"),
+    ("line annotation", "#", "\nlet a = num;\nres / on get -> <a>;"),
+    ("inline annotation", "let a = num `", "`;\nres / on get -> <a>;"),
     ("between two tokens", "let a =", "num;"),
     ("start of the text", "", "let a = num;\nlet b = a;"),
     ("end of the text", "let a = num;\nlet b = a;", ""),
